@@ -114,6 +114,22 @@ pub fn record(args: &[String]) {
         };
         writeln!(out, "{ev}").unwrap();
     }
+    // instants beyond the range the automaton walks (up to 9999-12-31): the civil fields come with the
+    // event and are validated by the closed form of Calendar.tla
+    let far = n / 4;
+    for i in 0..far {
+        let (day, sod): (u64, u64) = match i % 6 {
+            0 => (115_740, [63_999u64, 64_000][i / 6 % 2]),
+            1 => (2_932_896, 86_399),
+            _ => (rng.gen_range(84_006..=2_932_896), rng.gen_range(0..86400)),
+        };
+        let p = pats[rng.gen_range(0..pats.len())];
+        let ev = match resolve(p, day * 86400 + sod) {
+            Ok(o) => json!({"k": "far", "day": day, "c": civil_json(day), "sod": sod, "p": p, "ok": true, "out": to_cps(&o), "tz": tz}),
+            Err(_) => json!({"k": "far", "day": day, "c": civil_json(day), "sod": sod, "p": p, "ok": false, "out": [], "tz": tz}),
+        };
+        writeln!(out, "{ev}").unwrap();
+    }
     out.flush().unwrap();
-    println!("{}", json!({"module": "calendar", "events": n}));
+    println!("{}", json!({"module": "calendar", "events": n + far}));
 }
